@@ -135,7 +135,7 @@ pub fn run(args: &Args) -> i32 {
     rep.cov("evaluations", tot.runs);
     rep.cov("distinct_nontrivial", tot.nontrivial);
     rep.cov("exhaustive", true);
-    rep.cov("rule", "generated corpus (tools/gen_c17.py): kind {fn, async fn, fn returning Box::pin / std::boxed::Box::pin / ::std::boxed::Box::pin of an async move block, the inner-async-fn shape of old async-trait, fn returning an async move block} x parameter set {none, by value, mut binding, &, &mut, destructured tuple / struct / tuple struct, generic, impl Trait, primitives recorded as values, owned String / i64 / f64, self / &self / &mut self} x return shape {unit, value, the moved argument, Result with ?, Result with early return Err, early return, impl Trait, panic} x attribute arguments {none, name, level in every spelling, target, parent = None / &span, follows_from, skip, fields (constants, expressions over arguments, overriding an argument, % and ? sigils, Empty, dotted names), ret / err with levels and Display / Debug} singly, in pairs of different groups and ret+err+one more; body usage {unused, read, consumed} and 0-2 await points rotate. A run is one (twin pair, input selector, collector configuration, poll plan); it is non-trivial when the expected log differs from the plain twin's log, i.e. the attribute has to produce at least one span or event");
+    rep.cov("rule", "generated corpus (tools/gen_c17.py): kind {fn, async fn, fn returning Box::pin / std::boxed::Box::pin / ::std::boxed::Box::pin of an async move block, the inner-async-fn shape of old async-trait, fn returning an async move block} x parameter set {none, by value, mut binding, &, &mut, destructured tuple / struct / tuple struct, generic, impl Trait, primitives recorded as values, owned String / i64 / f64, self / &self / &mut self} x return shape {unit, value, the moved argument, Result with ?, Result with early return Err, early return, impl Trait, panic} x attribute arguments {none, name, level in every spelling, target, parent = None / &span, follows_from, skip, fields (constants, expressions over arguments, overriding an argument, % and ? sigils, Empty, dotted names), ret / err with levels and Display / Debug} singly, in pairs of different groups and ret+err+one more; body usage {unused, read, consumed}, 0-2 await points and item decorations {none, extra attributes + pub(crate), unsafe fn, where clause, const generic} rotate. A run is one (twin pair, input selector, collector configuration, poll plan); it is non-trivial when the expected log differs from the plain twin's log, i.e. the attribute has to produce at least one span or event");
     rep.cov("runs_where_argument_drops_moved_relative_to_body_effects", tot.drops_moved);
     rep.cov("collector_configurations", model::FILTS.len() as u64);
     rep.cov("corpus", if cfg!(feature = "big") { "small + big (tools/gen_c17.py)" } else { "small (tools/gen_c17.py)" });
